@@ -51,6 +51,7 @@ class ObResult:
     cex: list = field(default_factory=list)  # dicts: signature, witness, replay{module,func,kwargs}, detail
     note: str = ""
     reach_ok: Optional[bool] = None  # vacuity guard: reachability twin satisfiable
+    cross: dict = field(default_factory=dict)  # second-solver cross-check of decisive queries (thorough tier)
 
 
 def src_hash(qualnames):
@@ -209,7 +210,14 @@ def write_evidence(prop, tier, seed, results, wall, violations, extra_assumption
             "functions_encoded": src_hash(funcs),
             "queries_discharged": queries,
             "solver_time_s": round(sum(r.solver_s for r in results), 2),
-            "solvers": "z3 %s (python API); CrossHair 0.0.110 for engine-A obligations" % _z3v(),
+            "solvers": "z3 %s (python API)" % _z3v(),
+            "second_solver": {
+                "what": "thorough tier: up to 25 decisive (unsat) post-condition queries per obligation are re-decided by cvc5 from "
+                        "their SMT-LIB2 text; 'sat' there would make the obligation inconclusive",
+                "agree": sum(r.cross.get("agree", 0) for r in results),
+                "disagree": sum(r.cross.get("disagree", 0) for r in results),
+                "no_answer": sum(r.cross.get("no_answer", 0) for r in results),
+            },
             "obligations": len(results),
             "discharged": sum(1 for r in results if r.verdict == HOLDS),
             "obligation_results": [
@@ -223,6 +231,7 @@ def write_evidence(prop, tier, seed, results, wall, violations, extra_assumption
                     "solver_s": round(r.solver_s, 2),
                     "wall_s": round(r.wall_s, 2),
                     "reachability_twin_sat": r.reach_ok,
+                    "second_solver": r.cross or None,
                     "note": r.note,
                     "counterexamples": [
                         {k: c.get(k) for k in ("signature", "witness", "reproduced", "known", "replay_path", "detail")}
